@@ -82,6 +82,14 @@ def main():
                     caught[p] = {"rc": pr.returncode, "lines": [l[:400] for l in fails[:4]]}
     finally:
         sh("git -C /repo checkout -- .")
+        # files the patch created are untracked: remove exactly those (nothing else is ever deleted in /repo)
+        for line in open(patch, encoding="utf-8", errors="replace"):
+            if line.startswith("+++ b/"):
+                rel = line[6:].strip()
+                full = os.path.join("/repo", rel)
+                rcx, ox = sh(f"git -C /repo ls-files --error-unmatch -- {rel}")
+                if rcx != 0 and os.path.isfile(full) and rel.startswith("src/"):
+                    os.remove(full)
     import re as _re
 
     target = meta.get("property") or (_re.search(r"(C\d\d)", src).group(1) if _re.search(r"(C\d\d)", src) else "?")
